@@ -31,6 +31,11 @@ func (p *Parser) GetCommitment(opBytes []byte) (string, error) {
 
 	switch op.Type { //nolint:exhaustive
 	case operation.TypeUpdate:
+		if op.Delta == nil {
+			// an update without delta parses in batch mode (delta validation is skipped there)
+			return "", fmt.Errorf("get commitment - update operation is missing delta")
+		}
+
 		return op.Delta.UpdateCommitment, nil
 
 	case operation.TypeDeactivate:
